@@ -1,5 +1,6 @@
 import Driver.Common
 import IoraModel.Model.JsonFloat
+import IoraModel.Model.JsonSpec
 /-! Line-protocol driver of the JSON model (C13).  Same ops and answers as `harness/c13_json.cpp`; `order` is an
 implementation-only op (the iteration order of the real hash map is an input of `ser`, not something the model computes). -/
 namespace Iora.Driver.Json
@@ -36,6 +37,37 @@ partial def canon : Json → Json
   | j => j
 
 def sameValue (a b : Json) : Bool := dump true a == dump true b
+
+/-- error answer of the throwing wrappers: `parse_error`'s message carries line, column and the parser's message, no offset -/
+def showErrW (bs : Bytes) (e : Err) : String :=
+  let (l, c) := location bs e.2
+  s!"errw {kindName e.1} {l} {c}"
+
+/-- `JsonStreamParser`: every `feed` appends the chunk and re-parses the whole buffer; the first complete parse latches `_complete`;
+    `finish` re-parses only when nothing was complete yet.  (thin wrapper: mirrored here, not part of the theorems) -/
+structure StreamSt where
+  buf : Bytes := []
+  value : Json := .null
+  complete : Bool := false
+  error : Option (Bytes × Err) := none
+
+def streamFeed (ops : FloatOps) (lim : Limits) (st : StreamSt) (chunk : Bytes) : StreamSt × Bool :=
+  let buf := st.buf ++ chunk
+  match parse ops lim buf with
+  | .ok v => ({ buf := buf, value := v, complete := true, error := none }, true)
+  | .error e => ({ st with buf := buf, error := some (buf, e) }, false)
+
+def streamFinish (ops : FloatOps) (lim : Limits) (st : StreamSt) : StreamSt × Bool :=
+  if st.complete then (st, true) else
+  match parse ops lim st.buf with
+  | .ok v => ({ st with value := v, complete := true, error := none }, true)
+  | .error e => ({ st with error := some (st.buf, e) }, false)
+
+def splitAtCuts (bs : Bytes) (cuts : List Nat) : List Bytes :=
+  let rec go (rest : Bytes) (off : Nat) : List Nat → List Bytes
+    | [] => [rest]
+    | c :: cs => rest.take (c - off) :: go (rest.drop (c - off)) (max c off) cs
+  go bs 0 cuts
 
 /-- reader of the value syntax; members are stored with `insertOrAssign` in the order given -/
 partial def readValue : List Char → Option (Json × List Char)
@@ -107,6 +139,20 @@ def loadSrc (src : String) : Except String Json :=
     | _ => .error "bad-op"
   | _ => .error "bad-op"
 
+/-- `<hex text> <1 iff the text parses back (default limits) to a value equal to w for Json::operator== >` -/
+def serAnswer (text : Bytes) (w : Json) : String :=
+  let eq := match parse fops {} text with
+    | .ok v' => eqv v' w
+    | .error _ => false
+  s!"{toHex text} {bit eq}"
+
+/-- the value in the member order of the real hash map, as reported by the implementation (`-` = keep the order of `v`) -/
+def withOrder (v : Json) (order : String) : Option Json :=
+  if order = "-" then some v else
+  match readWhole order with
+  | some w => if sameValue w v && dump false w == order then some w else none
+  | none => none
+
 def step (_ : Unit) : List String → Unit × String
   | ["parse", d, a, m, s, hx] =>
     match d.toNat?, a.toNat?, m.toNat?, s.toNat?, ofHex hx with
@@ -121,20 +167,76 @@ def step (_ : Unit) : List String → Unit × String
       match loadSrc src with
       | .error l => ((), l)
       | .ok v =>
-        -- the value in the member order of the real hash map, as reported by the implementation
-        let w : Option Json := if order = "-" then some v else
-          match readWhole order with
-          | some w => if sameValue w v && dump false w == order then some w else none
-          | none => none
-        match w with
+        match withOrder v order with
+        | none => ((), "order-invalid")
+        | some w => ((), serAnswer (serialize fops { pretty := pretty, sortKeys := sort, indent := indent } 0 w) w)
+    | _, _, _ => ((), "bad-op")
+  -- ---- public wrappers (thin; same model answers)
+  | ["pvia", which, hx] =>
+    match ofHex hx with
+    | none => ((), "bad-op")
+    | some bs =>
+      let r := parse fops {} bs
+      if which = "orthrow" || which = "str" || which = "pstring" || which = "istream" then
+        match r with
+        | .ok v => ((), "ok " ++ dump true v)
+        | .error e => ((), showErrW bs e)
+      else if which = "noexc" || which = "safe" then
+        match r with
+        | .ok v => ((), "ok " ++ dump true v)
+        | .error _ => ((), "ok n")
+      else ((), "bad-op")
+  | ["pthrow", d, a, m, s, hx] =>
+    match d.toNat?, a.toNat?, m.toNat?, s.toNat?, ofHex hx with
+    | some d, some a, some m, some s, some bs =>
+      match parse fops { depthMax := d, arrayItemsMax := a, membersMax := m, stringLengthMax := s } bs with
+      | .ok v => ((), "ok " ++ dump true v)
+      | .error e => ((), showErrW bs e)
+    | _, _, _, _, _ => ((), "bad-op")
+  | ["stream", d, a, m, s, cuts, hx] =>
+    match d.toNat?, a.toNat?, m.toNat?, s.toNat?, ofHex hx with
+    | some d, some a, some m, some s, some bs =>
+      let lim : Limits := { depthMax := d, arrayItemsMax := a, membersMax := m, stringLengthMax := s }
+      let cs : Option (List Nat) := if cuts = "-" then some [] else (cuts.splitOn ",").mapM String.toNat?
+      match cs with
+      | none => ((), "bad-op")
+      | some cs =>
+        let (st, bits) := (splitAtCuts bs cs).foldl (fun (acc : StreamSt × String) ch =>
+          let (st', ok) := streamFeed fops lim acc.1 ch
+          (st', acc.2 ++ bit ok)) (({} : StreamSt), "")
+        let (st, fin) := streamFinish fops lim st
+        let state := if st.complete then "ok " ++ dump true st.value else
+          match st.error with
+          | some (b, e) => showErr b e
+          | none => "none"
+        ((), s!"s {bits} {bit fin} {state}")
+    | _, _, _, _, _ => ((), "bad-op")
+  | ["svia", "dump", indent, ch, _ea, sort, src, order] =>
+    match indent.toInt?, ch.toNat?, parseBit sort with
+    | some indent, some ch, some sort =>
+      match loadSrc src with
+      | .error l => ((), l)
+      | .ok v =>
+        match withOrder v order with
         | none => ((), "order-invalid")
         | some w =>
-          let text := serialize fops { pretty := pretty, sortKeys := sort, indent := indent } 0 w
-          let eq := match parse fops {} text with
-            | .ok v' => sameValue v' w
-            | .error _ => false
-          ((), s!"{toHex text} {bit eq}")
+          let o : Opts := if indent ≥ 0 then { pretty := true, sortKeys := sort, indent := List.replicate indent.toNat (b8 ch) }
+            else { pretty := false, sortKeys := sort, indent := Gen.Json.indentDefault.map b8 }
+          ((), serAnswer (serialize fops o 0 w) w)
     | _, _, _ => ((), "bad-op")
+  | ["svia", which, src, order] =>
+    match loadSrc src with
+    | .error l => ((), l)
+    | .ok v =>
+      match withOrder v order with
+      | none => ((), "order-invalid")
+      | some w =>
+        if which = "ostream" then ((), serAnswer (serialize fops {} 0 w) w)
+        else if which = "string" then
+          match w with
+          | .str s => ((), serAnswer s w)
+          | _ => ((), serAnswer (serialize fops {} 0 w) w)
+        else ((), "bad-op")
   | _ => ((), "bad-op")
 
 def main : IO Unit := runLines () step
